@@ -11,6 +11,8 @@ Decided
       templates and the label is inserted before the last suffix; the dtype compression finds labelled and unlabelled files
   U1  spikes.times is written from the model's spike times (s), spikes.samples from its spike samples; one uuid per cluster row
   H1  the list of empty cluster ids, used as an index by the exporter, has an integer dtype even when empty
+  U2  channels.rawInd (read back by the loader as the channel map) = source channel map minus the per-probe offset the merger added,
+      the offset starting at 0: an unmerged dataset exports exactly its own channel map
   A1  first dimension of every exported object table (see obligations/shape tables) - decided by the shape engine (C13.A1)
 Not decided: equality of reloaded values, uint16 range of ids.
 """
@@ -326,11 +328,12 @@ def run(ctx):
     p1_guard(ctx, f, sites)
     t1_names(ctx)
     u1_h1(ctx)
-    try:
-        from obligations import shape_tables
-        shape_tables.c13_a1(ctx)
-    except ImportError:
-        ctx.note('C13.A1 (first dimensions by the shape engine) not built in this revision')
+    from obligations import shape_tables
+    shape_tables.c13_a1(ctx)
+    # U2: channels.rawInd is what the loader reads back as the channel map: for an unmerged dataset it must be the source channel map itself
+    # (offset 0), for a merged one the per-probe inverse of the merger's shift (same obligation as C14.S1, reported here under C13.U2)
+    from obligations.C14 import s1_rawind
+    s1_rawind(ctx, rule='C13.U2')
 
 
 LEVEL_TEXT = ('Static effect analysis of the ALF export (directory-role whitelist: output directory, the three subset files and the deletion of '
